@@ -174,9 +174,9 @@ impl<RS: VReadSeek> SeekableChain<RS> {
 //@|    let ghost pre = self.chain@;
 //@|    let ghost ci = self.cur_idx as int;
 //@   hint after `let (max_pos, reader) = &mut self.chain[self.cur_idx];`
-//@|    assert(*max_pos == pre[ci].0 && reader.data() == pre[ci].1.data() && reader.pos() == pre[ci].1.pos());
+//@|    assert(*max_pos == pre[ci].0 && reader.data() == pre[ci].1.data() && reader.pos() == pre[ci].1.pos()); // O:read.current_volume
 //@   hint before `let max_read =`
-//@|    assert(reader.pos() == self.rel_pos && reader.data().len() == *max_pos);
+//@|    assert(reader.pos() == self.rel_pos && reader.data().len() == *max_pos); // O:read.volume_pos
 //@   hint before `self.abs_pos += read as u64;`
 //@|    proof { lemma_sum_mono(pre, ci + 1, pre.len() as int); }
 //@   hint before `Ok(read)`
